@@ -128,7 +128,7 @@ def main():
           for p in ALL if p not in CLAIMED]
     m = {
         'version': 1,
-        'setup_cmd': '(/venv/bin/python -m harness.live >/dev/null 2>&1 || true) && cd lean && lake build DfModel Generated DfProps dfdriver',
+        'setup_cmd': '(/venv/bin/python -m harness.live >/dev/null 2>&1 || true) && cd lean && lake build DfModel Generated dfdriver && (lake build DfProps || true)',
         'hooks': {'guard': 'DATAFLOWS_VERIF', 'enable': 'no hooks are needed: all instrumentation is from outside the repository',
                   'baseline_off_cmd': 'cd /repo && /venv/bin/python -m pytest -ra -q -p no:cacheprovider --timeout=900 --continue-on-collection-errors',
                   'source_commits': [], 'add_only': True},
